@@ -204,8 +204,13 @@ def specG (name text : List Char) (maxw : Nat) (structure_ : String) (ans : Stri
     else if ans.startsWith "panic" then "fail panic"
     else
       let top := Spec.FromString.maxIndex ps
-      if ps.any fun p => p.vals.any fun b => 2 ^ 64 ≤ b then
-        (if ans.startsWith "err invalidBit " then "ok" else "fail unrepresentable-index-not-rejected")
+      -- the parts are read left to right: the first part with an integer literal >= 2^64 in an argument (known finding) or
+      -- with an index that is not a usize decides, before anything else
+      let firstBad := ps.find? fun p => p.bigInt || p.vals.any fun b => 2 ^ 64 ≤ b
+      if let some p := firstBad then
+        (if p.bigInt then
+           (if ans.startsWith "ok " then "fail unparsable-answer" else s!"fail arg-int-literal-overflow got {ans.take 60}")
+         else if ans.startsWith "err invalidBit " then "ok" else "fail unrepresentable-index-not-rejected")
       else if 2 ^ 64 ≤ top + 1 then
         (if ans = s!"err invalidBit {encodeText (Nat.toDigits 10 top)}" then "ok" else "fail width-overflow-not-rejected")
       else
